@@ -319,7 +319,8 @@ def C12(ctx):
 
 def C13(ctx):
     f = ctx.facts("image")
-    I.c13_r1(ctx, f)
+    d_fwd = Pp.c13_r3(ctx, f)
+    I.c13_r1(soft_if(ctx, d_fwd, "C13.R3"), f)
     I.c13_t1(ctx, f)
     I.c13_r2(ctx, f)
     d_doc = G.c12_r7(ctx, f)
@@ -348,7 +349,7 @@ def C14(ctx):
         d_alg = Pp.c14_p7(ctx, f)
         P.p6_setters(soft_if(ctx, d_alg, "C14.P7"), f)
     P.build_does_not_mutate(ctx, ctx.facts("default"))
-    I.c13_r1(ctx, ctx.facts("image"))
+    I.c13_r1(soft_if(ctx, Pp.c13_r3(ctx, ctx.facts("image")), "C13.R3"), ctx.facts("image"))
     witness.rule(ctx, "C14.W", "Send+Sync for the four public types; build and renderers through shared references; setters chain on &mut",
                  ["w_c14_send_sync", "w_c14_build_through_shared_ref", "w_c14_renderers", "w_c14_setters"])
     return dict(
@@ -431,9 +432,9 @@ def C17(ctx):
 
 def C18(ctx):
     f = ctx.facts("svg")
+    d_frame = x("c18_r2", ctx, f)
     S.c18_t1(ctx, f)
-    S.c18_r1(ctx, f)
-    x("c18_r2", ctx, f)
+    S.c18_r1(soft_if(ctx, d_frame, "C18.R2"), f)
     return dict(
         level="other",
         explanation="SvgBuilder::image is partially evaluated into the frame and image rectangles for 40 versions x 3 shapes x margins 0..16 (the property's whole default domain): centred, on module boundaries, side non-decreasing with the version, < 40% of the side, clear of the finder zones, image centred inside and not larger; size/gap/position overrides are honoured on a stated lattice. image_placement's tables and the x/y symmetry of the arithmetic are table/structural obligations.",
